@@ -37,7 +37,7 @@ ANCHORS = [
 ]
 REQUIRED = ["q:aggregate_current", "q:aggregate_power", "q:constraint_currents", "q:constraint_currents_reordered",
             "q:constraint_currents_duplicates", "q:energy", "q:demands_met", "q:demands_met_threshold_below_full_cut_discriminating", "q:unbalance", "q:unbalance_nan_positions",
-            "q:datetimes", "runs_longer_than_8192_periods", "q:datetimes_partial_run", "regime:hetero-voltage", "regime:mixed-sign", "regime:constraint-free"]
+            "q:datetimes", "runs_longer_than_8192_periods", "q:datetimes_partial_run", "analysis_called_mid_run_then_run_resumed", "regime:hetero-voltage", "regime:mixed-sign", "regime:constraint-free"]
 BUDGET_S = {"quick": 240, "thorough": 3000}
 
 
@@ -89,7 +89,49 @@ def run_case(case, obs):
     import acnportal.acnsim as acnsim
     d = case["desc"]
     rng = random.Random(case["qseed"])
-    sim, evs, probe = simrun.run_traced(d, snapshots=False)
+    if rng.random() < 0.25 and not case.get("long"):
+        # the analysis functions are also called on the half-done simulator (after a scheduler exception in period k), their
+        # results are scribbled over by the client, the run is resumed to completion and everything is judged on the final state
+        from vlib.monitors import SimProbe
+        sim, evs = build.build_sim(d)
+        probe = SimProbe(sim, snapshots=False)
+        probe.attach()
+        orig_run = sim.scheduler.run
+        st_ = {"fired": False, "k": rng.randint(1, max(1, simrun.last_event_ts(d)))}
+
+        class _Pause(Exception):
+            pass
+
+        def flaky():
+            if not st_["fired"] and sim.iteration >= st_["k"]:
+                st_["fired"] = True
+                raise _Pause()
+            return orig_run()
+
+        sim.scheduler.run = flaky
+        probe.run()
+        if st_["fired"] and isinstance(probe.exception, _Pause):
+            obs.ev("analysis_called_mid_run_then_run_resumed")
+            with warnings.catch_warnings():
+                warnings.simplefilter("ignore")
+                for fn in (acnsim.aggregate_current, acnsim.aggregate_power, acnsim.constraint_currents, acnsim.datetimes_array,
+                           acnsim.total_energy_delivered, acnsim.total_energy_requested, acnsim.proportion_of_energy_delivered,
+                           acnsim.proportion_of_demands_met):
+                    try:
+                        r_ = fn(sim)
+                        if isinstance(r_, np.ndarray) and r_.dtype.kind == "f":
+                            r_[...] = -4.25
+                        elif isinstance(r_, dict):
+                            for v_ in r_.values():
+                                if isinstance(v_, np.ndarray):
+                                    v_[...] = -4.25
+                    except Exception:
+                        pass
+            sim.scheduler.run = orig_run
+            probe.run()
+        probe.detach()
+    else:
+        sim, evs, probe = simrun.run_traced(d, snapshots=False)
     if probe.exception is not None:
         obs.ev("run_raised_not_judged")
         return
